@@ -1196,6 +1196,31 @@ def camp_c13(rnd, tier):
         qv_observe(b, qv, n, rnd)
         c = b.conv(qv, "clone")
         b.eq(qv, c)
+    # phase sweep: an extend (and a push) arriving at every position class inside a 256-symbol line
+    # (position counter = 2 * symbols, so half lines, quarter lines and line ends are all distinct classes),
+    # the prefix itself produced by pushes or by an earlier extend
+    phases = [0, 1, 64, 127, 128, 129, 192, 255]
+    exts = rotate([1, 10, 130, 300, 128, 256], rnd)
+    for ph in phases:
+        for base in ([0, 256] if tier == "quick" else [0, 256, 512, 1024]):
+            for how in ("push", "extend"):
+                b.reset()
+                qb = b.newq("QB", "u8", rnd.choice(["qb_new", "default", "qb_with_capacity"]), Seqn.from_values([0] * rnd.choice([0, 1, 300])))
+                pre = [rnd.randrange(1, 256) for _ in range(base + ph)]
+                if how == "push":
+                    for v in pre:
+                        b.mut(qb, "qpush", a=[v])
+                elif pre:
+                    b.mut(qb, "qextend", ty="u8", vals=[sym(v) for v in pre])
+                ext = [rnd.randrange(1, 256) for _ in range(next(exts))]
+                b.mut(qb, "qextend", ty="u8", vals=[sym(v) for v in ext])
+                tail = [rnd.randrange(1, 256) for _ in range(rnd.choice([0, 1, 3]))]
+                for v in tail:
+                    b.mut(qb, "qpush", a=[v])
+                allv = [v % 4 for v in pre + ext + tail]
+                qv = b.conv(qb, "qbuild", keep=0)
+                qv_observe(b, qv, len(allv), rnd)
+                b.eq(qv, b.newq("QV", "u8", "collect", Seqn.from_values(allv)))
     return b
 
 
@@ -1870,6 +1895,9 @@ def space_tree_inputs(rnd, tier, ty, huff):
     # one dominant symbol and many moderately frequent ones (counts above 2^16, very different)
     dom = 1500000 if tier == "quick" else 4000000
     out.append(("huge_dominant", runs_profile(rnd, list(range(16)), [dom] + [70000] * 15)))
+    # so dominant that the entropy bound drops below two levels per symbol while more than a dozen other
+    # symbols still have counts above 2^16 (frequencies that saturate or are truncated all tie there)
+    out.append(("huge_dominant_17", runs_profile(rnd, list(range(17)), [dom * 4] + [70000] * 16)))
     out.append(("huge_one_run", Seqn.from_runs([([0], dom)] + [([1 + (i % 9)], 1) for i in range(78)])))
     # the order of the sequence must not matter for the code: the dominant symbol occurs once early
     # and then as one long final (initial) run; the others in short runs in between
